@@ -414,6 +414,14 @@ def make_grid2(ex, name, env, **kw):
         g.fields[dname] = SymDict(f"{name}.{dname}", {k: [True, opt_opaque(f"{name}.{dname}.{k}")] for k in keys}, closed=True,
                                   owner="self")
     g.fields["_ds"].ghost["ident"] = g.ident
+    if kw.get("sizes"):
+        # dimension lengths tied to size symbols of the contract
+        g.fields["_ds"].ghost["sizes"] = {d: env[sym] for d, sym in kw["sizes"].items()}
+    if kw.get("tables"):
+        from .typespec import make_value
+        for vname, vspec in kw["tables"].items():
+            data = make_value(ex, vspec, f"{name}.{vname}", env)
+            g.fields["_ds"].entries[vname] = [True, make_dataarray(ex, f"{name}.{vname}", data=data)]
     if kw.get("attrs") == "dict":
         # variables already in the dataset carry an attribute mapping with unknown contents (keys materialise on demand)
         g.fields["_ds"].ghost["entry_factory"] = lambda ex_, d, key: make_dataarray(
@@ -438,6 +446,20 @@ def xr_dataarray(ex, args, kwargs, node):
     dims = kwargs.get("dims", args[2] if len(args) > 2 else None)
     attrs = kwargs.get("attrs", None)
     return make_dataarray(ex, "da", data, dims, attrs)
+
+
+@method("DataArray", "shape")
+def da_shape(ex, base, node, env, fr):
+    d = base.fields.get("data")
+    if isinstance(d, Arr):
+        return tuple(d.shape)
+    raise Unsupported(".shape of a variable without a typed array")
+
+
+@spec("listmap")
+def sp_listmap(ex, args, kwargs, node):
+    """listmap(n): ghost dict {i: [] for i in range(n)}"""
+    return V.ListMap(args[0], "int", "ghostmap")
 
 
 @method("Obj", "values")
@@ -800,6 +822,8 @@ def sizes_getitem(ex, base, node, env, fr):
         (k,) = idx
         if not isinstance(k, str):
             raise Unsupported("dimension name is not a literal")
+        if k in (base.d.ghost.get("sizes") or {}):
+            return base.d.ghost["sizes"][k]
         trusted(ex, "Dataset.sizes[dim]: the length of a named dimension is fixed for a grid's dataset")
         return as_opt(_uf("dim:" + k, 1)(base.d.ghost["ident"]), "size_" + k)
     return get
